@@ -21,12 +21,12 @@ RUNS = {"quick": 1500, "thorough": 30000}
 CHUNK = {"quick": 10, "thorough": 50}
 OPS = ["view:settings", "view:settings_by_index", "view:raw_settings", "view:raw_settings_by_index", "map:name:pretty",
        "map:const:raw", "map:enum:noparse", "props", "repr", "c2http:rsa", "c2http:aes_rand", "c2http:aes_hmac",
-       "c2http:aes_noverify", "client_dry", "profile_text", "profile_dict", "transform_get", "transform_post",
+       "c2http:aes_noverify", "client_dry", "client_dry:args", "dunders", "profile_text", "profile_dict", "transform_get", "transform_post",
        "transform_server", "transform_get_noreq", "transform_post_noreq", "recover_roundtrip", "iter_recover", "mutate_attempt"]
 PROBES = ["op_" + o.replace(":", "_") for o in OPS] + ["real_sample_config", "generated_config", "history_len>=10",
                                                         "consumer_then_observe", "pair_sweep", "pivot_config_without_domains", "sample_constructed_full",
                                                         "sample_constructed_bare", "companion_observed_first"]
-RULE = ("systematic population: every ordered pair of the 24 operation kinds (view access, settings_map variants, derived "
+RULE = ("systematic population: every ordered pair of the 26 operation kinds (view access, settings_map variants, derived "
         "properties, repr, C2Http with each key variant, HttpBeaconClient dry run, profile generation text/dict, "
         "transform/recover/iter_recover_http on decoders built so far, mutation attempts) followed by a final observation, "
         "on 3 generated configurations (quick) / 8 (thorough), triples in thorough on one configuration; seeded population: "
@@ -257,6 +257,7 @@ def run_op(op: str, st: State, seams) -> str:
     from dissect.cobaltstrike.c2 import C2Data, C2Http, HttpRequest, HttpResponse, encrypt_packet
     from dissect.cobaltstrike.c2profile import C2Profile
     from dissect.cobaltstrike.client import HttpBeaconClient
+    from dissect.cobaltstrike.beacon import BeaconConfig as BeaconConfig_
     seams.rng.seed(12345)
     bc = st.bc
     if op.startswith("view:"):
@@ -329,6 +330,24 @@ def run_op(op: str, st: State, seams) -> str:
             c = C2Http(bc, aes_key=d[:16], verify_hmac=False)
         st.decoders.append(c)
         return _canon_c2http(c)
+    if op == "dunders":
+        # protocol-level uses of the object itself: hashing, comparison, membership, copying, pickling support probes
+        import copy
+        h1 = hash(bc) == hash(bc)
+        e1 = (bc == bc, bc != bc, bc in {bc}, bc in [bc])
+        c1 = copy.copy(bc)
+        # (copy.deepcopy is not used: on the pinned tree it only works before any cached view exists - mappingproxy objects
+        # cannot be deep-copied - and deep copies are not among the uses the property lists)
+        return repr((h1, e1, repr(list(c1.raw_settings.items())) == repr(list(BeaconConfig_(bc.config_block).raw_settings.items()))))
+    if op in ("client_dry", "client_dry:args") and op == "client_dry:args":
+        c = HttpBeaconClient()
+        c.run(bc, dry_run=True, beacon_id=4242, user="u", computer="c", process="p.exe", internal_ip="10.0.0.1", arch="x86", barch="x64",
+              pid=7, host_header="Host: explicit.example", user_agent="explicit-UA/2.0", domain="override.example", port=8443,
+              scheme="http", sleeptime=1234, jitter=7, high_integrity=True)
+        st.decoders.append(c.c2http)
+        return repr((c.beacon_id, c.aes_rand, c.metadata.dumps(), c.base_url, c.get_uri, c.task_url, c.submit_uri, c.callback_url,
+                     c.sleeptime, c.jitter, c.user_agent, c.host_header, c.get_verb, c.submit_verb, c.domain, c.port, c.scheme,
+                     _canon_c2http(c.c2http), repr(c._initial_get_request()), repr(c._initial_post_request())))
     if op == "client_dry":
         c = HttpBeaconClient()
         c.run(bc, dry_run=True, beacon_id=4242, user="u", computer="c", process="p.exe", internal_ip="10.0.0.1", arch="x64", pid=7)
@@ -448,7 +467,7 @@ def execute(plan: dict) -> Result:
                 if built_consumer:
                     res.probes["consumer_then_observe"] += 1
                     res.nontrivial = True
-                if op.startswith("c2http") or op in ("client_dry", "profile_text", "profile_dict") or op.startswith("transform") \
+                if op.startswith("c2http") or op in ("client_dry", "client_dry:args", "profile_text", "profile_dict") or op.startswith("transform") \
                         or op in ("recover_roundtrip", "iter_recover"):
                     built_consumer = True
                 if op == "mutate_attempt" and "ACCEPTED" in got:
@@ -504,7 +523,7 @@ def execute(plan: dict) -> Result:
 
 def _first_consumer(hist):
     for op in hist:
-        if op.startswith("c2http") or op in ("client_dry", "profile_text", "profile_dict") or op.startswith("transform") or \
+        if op.startswith("c2http") or op in ("client_dry", "client_dry:args", "profile_text", "profile_dict") or op.startswith("transform") or \
                 op in ("recover_roundtrip", "iter_recover"):
             return "after:" + op.split(":")[0]
     return "after:reads_only"
